@@ -195,3 +195,56 @@ Proof.
   - apply RT_close.
   - apply P_any. apply P_esc. apply P_nil.
 Qed.
+
+(** ** C19_plan_ignores_excluded.  "... and is never created, altered or dropped by any plan."
+    Full statement (DESIGN 4): if both states are filtered by the same patterns, no change of
+    [diff] at any nesting level targets an excluded resource.
+
+    Proved (PARTIAL in the resource kinds): for every driver of the generic differ whose
+    Normalize keeps the columns and whose TableAttrDiff returns no column change (the SQLite
+    driver does: second theorem), every skip function, both kinds of states and every list of
+    chains: every AddTable / DropTable / ModifyTable of the diff of the two filtered schemas
+    targets a table of the original state that NO chain selects, and every AddColumn /
+    DropColumn / ModifyColumn inside a ModifyTable a column that no chain selects.
+    Missing: the same for index / foreign-key / check changes -- there it is not true as
+    stated for the SQLite driver: Normalize renames `sqlite_autoindex_*` indexes to
+    `<table>_<cols>` and rewrites foreign-key symbols, so a change can carry a name no state
+    holds (and that a pattern may match); and after the cascade of excludeT (finding
+    C19-exclude-cascade-dependent) a state with back-pointers and one without disagree about
+    an index that matches no pattern, which yields a DropIndex/AddIndex of an unexcluded
+    index.  The SQL plan is outside this model (M-SQLITE planner: other properties). *)
+From Atlas Require Import Excl.PlanProofs.
+
+Theorem C19_plan_ignores_excluded_partial :
+  forall (D : DiffDriver) (skip : tag -> bool) (link1 link2 : bool * bool)
+         (patterns : list bytes) (G : list (list bytes)) (from to from' to' : schema) (cs : list schange),
+    norm_keeps_cols D -> attr_no_cols D ->
+    split patterns = EOk G -> chains_ok G ->
+    ExcludeRealm link1 [from] patterns = EOk [from'] ->
+    ExcludeRealm link2 [to] patterns = EOk [to'] ->
+    SchemaDiff D skip from' to' = Some cs ->
+    forall c, In c cs -> unexcluded_target G from to c.
+Proof.
+  intros D skip link1 link2 patterns G from to from' to' cs Hn Ha Hs HG H1 H2 Hd c Hc.
+  rewrite (ExcludeRealm_ref link1 [from] patterns G Hs HG) in H1.
+  rewrite (ExcludeRealm_ref link2 [to] patterns G Hs HG) in H2.
+  unfold ref_realm in H1, H2. simpl in H1, H2.
+  destruct (schema_hit G from); [discriminate|]. destruct (schema_hit G to); [discriminate|].
+  simpl in H1, H2. inversion H1; subst. inversion H2; subst.
+  exact (plan_ignores_excluded D skip link1 link2 G from to cs Hn Ha Hd c Hc).
+Qed.
+Print Assumptions C19_plan_ignores_excluded_partial.
+
+Theorem C19_plan_sqlite_driver : norm_keeps_cols sqlite_driver /\ attr_no_cols sqlite_driver.
+Proof. split; [exact sqlite_norm_keeps_cols | exact sqlite_attr_no_cols]. Qed.
+Print Assumptions C19_plan_sqlite_driver.
+
+(** non-vacuity: column b of t is excluded in both states, column c is added: the plan adds c
+    and says nothing about b, which only the current state has *)
+Example C19_plan_nonvacuous :
+  let pats := [[109;46;116;46;98]%N] in   (* "m.t.b" *)
+  exists from' to',
+    ExcludeRealm (true, true) [ex_from] pats = EOk [from'] /\
+    ExcludeRealm (true, true) [ex_to] pats = EOk [to'] /\
+    SchemaDiff sqlite_driver no_skip from' to' = Some [ModifyTable [116]%N [AddColumn [99]%N; DropIndex [105]%N]].
+Proof. eexists; eexists. split; [vm_compute; reflexivity|]. split; vm_compute; reflexivity. Qed.
